@@ -1,12 +1,372 @@
-//! C02: harness module (stub — not built yet)
-#![allow(dead_code, unused_imports, unused_variables)]
+//! C02 / C10 / C11: scripted sessions on the real `des::runtime::Runtime`.
+//!
+//! Script:
+//!   case <id> n=<buckets> t=<bucket ns> start=<ns>
+//!   builder max_itr <n> | builder max_time <ns> | builder limit <expr>      expr = none | ec:N | st:N | and(A,B) | or(A,B)
+//!   node <id> <act>*            act = +<delay>:<child> | -<delay>:<child>   (handler of node <id> calls add_event at now±delay)
+//!   add <abs ns> <node>         external add_event (before start, or while paused)
+//!   stepn <n>                   dispatch_n_events
+//!   until <abs ns>              dispatch_events_until
+//!   run                         dispatch_all
+//!   end                         (finish() is always called)
+//! Transcript: the same lines, each command followed by observation lines
+//!   > h <node> <SimTime::now() in the handler>
+//!   > a <node> <abs ns> ok|rej          an add_event call returned / panicked
+//!   > p itr=<dispatched> now=<sim_time> rem=<remaining> sched=<scheduled>
+//!   > fin time=<ns> count=<event_count> rem=<node>@<ns>,…   (remaining events in the order finish() drained them)
 use crate::rng::Rng;
 use crate::util::{cases, guarded, hval};
+use des::prelude::*;
+use des::runtime::{Application, Builder, Event, EventLifecycle, Runtime, RuntimeLimit};
+use std::fmt::Write;
+use std::time::Duration;
 
-pub fn gen(_seed: u64, _count: usize, _thorough: bool) -> String {
-    String::new()
+#[derive(Clone, Copy)]
+struct Act {
+    back: bool,
+    delay: u64,
+    node: usize,
 }
 
-pub fn exec(_input: &str) -> String {
-    String::new()
+struct App {
+    prog: Vec<Vec<Act>>,
+    log: Vec<String>,
+}
+
+struct Ev(usize);
+
+impl Application for App {
+    type EventSet = Ev;
+    type Lifecycle = ();
+}
+
+fn st(ns: u64) -> SimTime {
+    SimTime::from_duration(Duration::from_nanos(ns))
+}
+
+fn ns(t: SimTime) -> u128 {
+    t.as_nanos()
+}
+
+impl Event<App> for Ev {
+    fn handle(self, rt: &mut Runtime<App>) {
+        let now = ns(SimTime::now()) as u64;
+        rt.app.log.push(format!("> h {} {}", self.0, now));
+        let acts = rt.app.prog.get(self.0).cloned().unwrap_or_default();
+        for a in acts {
+            let time = if a.back { now.saturating_sub(a.delay) } else { now + a.delay };
+            let ok = guarded(|| rt.add_event(Ev(a.node), st(time))).is_ok();
+            rt.app.log.push(format!("> a {} {} {}", a.node, time, if ok { "ok" } else { "rej" }));
+        }
+    }
+}
+
+fn parse_limit(s: &str) -> Option<(RuntimeLimit, &str)> {
+    if let Some(r) = s.strip_prefix("none") {
+        return Some((RuntimeLimit::None, r));
+    }
+    if let Some(r) = s.strip_prefix("ec:") {
+        let end = r.find(|c: char| !c.is_ascii_digit()).unwrap_or(r.len());
+        return Some((RuntimeLimit::EventCount(r[..end].parse().ok()?), &r[end..]));
+    }
+    if let Some(r) = s.strip_prefix("st:") {
+        let end = r.find(|c: char| !c.is_ascii_digit()).unwrap_or(r.len());
+        return Some((RuntimeLimit::SimTime(st(r[..end].parse().ok()?)), &r[end..]));
+    }
+    for (pre, and) in [("and(", true), ("or(", false)] {
+        if let Some(r) = s.strip_prefix(pre) {
+            let (a, r) = parse_limit(r)?;
+            let r = r.strip_prefix(',')?;
+            let (b, r) = parse_limit(r)?;
+            let r = r.strip_prefix(')')?;
+            let l = if and {
+                RuntimeLimit::CombinedAnd(Box::new(a), Box::new(b))
+            } else {
+                RuntimeLimit::CombinedOr(Box::new(a), Box::new(b))
+            };
+            return Some((l, r));
+        }
+    }
+    None
+}
+
+fn drain_log(rt: &mut Runtime<App>, out: &mut String) {
+    for l in rt.app.log.drain(..) {
+        writeln!(out, "{l}").unwrap();
+    }
+}
+
+fn paused(rt: &Runtime<App>, out: &mut String) {
+    writeln!(
+        out,
+        "> p itr={} now={} rem={} sched={}",
+        rt.num_events_dispatched(),
+        ns(rt.sim_time()),
+        rt.num_events_remaining(),
+        rt.num_events_scheduled()
+    )
+    .unwrap();
+}
+
+pub fn exec(input: &str) -> String {
+    let mut out = String::new();
+    for (header, body) in cases(input) {
+        let n: usize = hval(&header, "n").and_then(|v| v.parse().ok()).unwrap_or(1028);
+        let t: u64 = hval(&header, "t").and_then(|v| v.parse().ok()).unwrap_or(2_500_000);
+        let start: u64 = hval(&header, "start").and_then(|v| v.parse().ok()).unwrap_or(0);
+        writeln!(out, "{header}").unwrap();
+        let mut builder = Builder::seeded(1).quiet().start_time(st(start)).cqueue_options(n, Duration::from_nanos(t));
+        let mut prog: Vec<Vec<Act>> = Vec::new();
+        let mut cmds: Vec<String> = Vec::new();
+        for line in &body {
+            if line.starts_with('>') {
+                continue;
+            }
+            let tok: Vec<&str> = line.split_whitespace().collect();
+            match tok.as_slice() {
+                ["builder", "max_itr", v] => {
+                    if let Ok(v) = v.parse() {
+                        builder = builder.max_itr(v);
+                        writeln!(out, "{line}").unwrap();
+                    }
+                }
+                ["builder", "max_time", v] => {
+                    if let Ok(v) = v.parse() {
+                        builder = builder.max_time(st(v));
+                        writeln!(out, "{line}").unwrap();
+                    }
+                }
+                ["builder", "limit", e] => {
+                    if let Some((l, "")) = parse_limit(e) {
+                        builder = builder.limit(l);
+                        writeln!(out, "{line}").unwrap();
+                    }
+                }
+                ["node", id, acts @ ..] => {
+                    let Ok(id) = id.parse::<usize>() else { continue };
+                    if id > 4096 {
+                        continue;
+                    }
+                    let mut v = Vec::new();
+                    for a in acts {
+                        let (back, rest) = match a.chars().next() {
+                            Some('+') => (false, &a[1..]),
+                            Some('-') => (true, &a[1..]),
+                            _ => continue,
+                        };
+                        let mut it = rest.split(':');
+                        if let (Some(d), Some(c)) = (it.next(), it.next()) {
+                            if let (Ok(d), Ok(c)) = (d.parse(), c.parse()) {
+                                v.push(Act { back, delay: d, node: c });
+                            }
+                        }
+                    }
+                    if prog.len() <= id {
+                        prog.resize(id + 1, Vec::new());
+                    }
+                    prog[id] = v;
+                    writeln!(out, "{line}").unwrap();
+                }
+                _ => cmds.push(line.clone()),
+            }
+        }
+        let mut rt = builder.build(App { prog, log: Vec::new() });
+        let mut started = false;
+        for line in cmds {
+            let tok: Vec<&str> = line.split_whitespace().collect();
+            match tok.as_slice() {
+                ["add", time, node] => {
+                    let (Ok(time), Ok(node)) = (time.parse::<u64>(), node.parse::<usize>()) else { continue };
+                    writeln!(out, "{line}").unwrap();
+                    let ok = guarded(|| rt.add_event(Ev(node), st(time))).is_ok();
+                    writeln!(out, "> a {} {} {}", node, time, if ok { "ok" } else { "rej" }).unwrap();
+                }
+                ["stepn", k] => {
+                    let Ok(k) = k.parse::<usize>() else { continue };
+                    if !started {
+                        rt.start();
+                        started = true;
+                    }
+                    writeln!(out, "{line}").unwrap();
+                    if guarded(|| rt.dispatch_n_events(k)).is_err() {
+                        writeln!(out, "> panic").unwrap();
+                    }
+                    drain_log(&mut rt, &mut out);
+                }
+                ["until", time] => {
+                    let Ok(time) = time.parse::<u64>() else { continue };
+                    if !started {
+                        rt.start();
+                        started = true;
+                    }
+                    writeln!(out, "{line}").unwrap();
+                    if guarded(|| rt.dispatch_events_until(st(time))).is_err() {
+                        writeln!(out, "> panic").unwrap();
+                    }
+                    drain_log(&mut rt, &mut out);
+                }
+                ["run"] => {
+                    if !started {
+                        rt.start();
+                        started = true;
+                    }
+                    writeln!(out, "{line}").unwrap();
+                    if guarded(|| rt.dispatch_all()).is_err() {
+                        writeln!(out, "> panic").unwrap();
+                    }
+                    drain_log(&mut rt, &mut out);
+                }
+                _ => continue,
+            }
+            paused(&rt, &mut out);
+        }
+        if !started {
+            rt.start();
+        }
+        match guarded(move || rt.finish()) {
+            Ok(Ok((_app, time, prof))) => {
+                let rem: Vec<String> = prof.remaining.iter().map(|(e, t)| format!("{}@{}", e.0, ns(*t))).collect();
+                writeln!(out, "> fin time={} count={} rem={}", ns(time), prof.event_count, if rem.is_empty() { "-".to_string() } else { rem.join(",") }).unwrap();
+            }
+            Ok(Err(_)) => writeln!(out, "> fin error").unwrap(),
+            Err(_) => writeln!(out, "> fin panic").unwrap(),
+        }
+        writeln!(out, "end").unwrap();
+    }
+    out
+}
+
+// ---------------------------------------------------------------------------------- generators
+
+const NS: [u64; 6] = [1, 2, 3, 7, 32, 1028];
+const TS: [u64; 4] = [1, 3, 1_000, 2_500_000];
+
+fn delay(r: &mut Rng, n: u64, t: u64) -> u64 {
+    match r.below(10) {
+        0 | 1 | 2 => 0,
+        3 => 1,
+        4 => t,
+        5 => n * t,
+        6 => r.below(4),
+        7 => t * r.below(5),
+        8 => n * t + r.below(3),
+        _ => r.below(3 * t + 2),
+    }
+}
+
+struct Forest {
+    text: String,
+    nodes: usize,
+    /// upper bound on any timestamp reached
+    horizon: u64,
+    roots: Vec<(u64, usize)>,
+}
+
+fn forest(r: &mut Rng, n: u64, t: u64, start: u64, thorough: bool) -> Forest {
+    let nodes = if thorough { r.range(2, 40) } else { r.range(2, 14) } as usize;
+    let mut text = String::new();
+    let mut maxd = 0u64;
+    for i in 0..nodes {
+        let k = if i + 1 >= nodes { 0 } else { r.below(4) };
+        let mut line = format!("node {i}");
+        for _ in 0..k {
+            let child = r.range(i as u64 + 1, nodes as u64 - 1);
+            let d = delay(r, n, t);
+            maxd = maxd.max(d);
+            if r.chance(1, 12) {
+                write!(line, " -{}:{}", r.range(1, 3) * if r.chance(1, 2) { 1 } else { t }, child).unwrap();
+            } else {
+                write!(line, " +{d}:{child}").unwrap();
+            }
+        }
+        writeln!(text, "{line}").unwrap();
+    }
+    let mut roots = Vec::new();
+    let nroots = r.range(1, 4);
+    let mut maxroot = start;
+    for _ in 0..nroots {
+        let time = start + delay(r, n, t);
+        maxroot = maxroot.max(time);
+        roots.push((time, r.below(nodes as u64 / 2 + 1) as usize));
+    }
+    Forest { text, nodes, horizon: maxroot + maxd * nodes as u64 + 1, roots }
+}
+
+fn limit_expr(r: &mut Rng, depth: u32, total: u64, horizon: u64, start: u64) -> String {
+    let leaf = depth == 0 || r.chance(1, 2);
+    if leaf {
+        if r.chance(1, 2) {
+            format!("ec:{}", r.below(total + 3))
+        } else {
+            format!("st:{}", start.saturating_sub(1) + r.below(horizon - start.min(horizon) + 3))
+        }
+    } else {
+        let a = limit_expr(r, depth - 1, total, horizon, start);
+        let b = limit_expr(r, depth - 1, total, horizon, start);
+        format!("{}({a},{b})", if r.chance(1, 2) { "and" } else { "or" })
+    }
+}
+
+/// which = 2 (C02: clock / past scheduling), 10 (stepping), 11 (limits)
+pub fn gen_for(which: u32, seed: u64, count: usize, thorough: bool) -> String {
+    let mut r = Rng::new(seed ^ (which as u64) << 32);
+    let mut out = String::new();
+    for k in 0..count {
+        let n = *r.pick(&NS);
+        let t = *r.pick(&TS);
+        // keep (start / t) small: the real scan loop is O(gap / t)
+        let start = if r.chance(1, 2) { 0 } else { *r.pick(&[1u64, 5, 1_000, 20_000]) * r.range(1, 3) * if r.chance(1, 2) { t } else { 1 } };
+        writeln!(out, "case {k} n={n} t={t} start={start}").unwrap();
+        let f = forest(&mut r, n, t, start, thorough);
+        let total = f.nodes as u64 * 2;
+        if which == 11 || (which == 10 && r.chance(1, 6)) {
+            for _ in 0..r.range(1, 3) {
+                match r.below(3) {
+                    0 => writeln!(out, "builder max_itr {}", r.below(total + 2)).unwrap(),
+                    1 => writeln!(out, "builder max_time {}", start.saturating_sub(1) + r.below(f.horizon - start + 3)).unwrap(),
+                    _ => writeln!(out, "builder limit {}", limit_expr(&mut r, 3, total, f.horizon, start)).unwrap(),
+                }
+            }
+        }
+        out.push_str(&f.text);
+        for (time, node) in &f.roots {
+            writeln!(out, "add {time} {node}").unwrap();
+        }
+        if which == 2 {
+            // probe the past before the run (matters when start > 0) and at the boundary
+            if start > 0 && r.chance(2, 3) {
+                writeln!(out, "add {} {}", start - r.range(1, start.min(3)), r.below(f.nodes as u64)).unwrap();
+            }
+            if r.chance(1, 3) {
+                writeln!(out, "add {} {}", start, r.below(f.nodes as u64)).unwrap();
+            }
+        }
+        if which == 10 {
+            let steps = r.range(1, 6);
+            for _ in 0..steps {
+                match r.below(5) {
+                    0 | 1 => writeln!(out, "stepn {}", r.below(4)).unwrap(),
+                    2 => writeln!(out, "until {}", start + r.below(f.horizon - start + 2)).unwrap(),
+                    3 => writeln!(out, "until {}", start + delay(&mut r, n, t) * r.below(3)).unwrap(),
+                    _ => {
+                        // external add while paused: around "now" (unknown here: use small offsets from start
+                        // and from typical event times) — early times are legitimately rejected
+                        let base = if r.chance(1, 2) { start } else { start + delay(&mut r, n, t) };
+                        writeln!(out, "add {} {}", base + r.below(3), r.below(f.nodes as u64)).unwrap();
+                    }
+                }
+            }
+        }
+        writeln!(out, "run").unwrap();
+        if which == 10 && r.chance(1, 4) {
+            writeln!(out, "add {} {}", start + f.horizon + r.below(5), r.below(f.nodes as u64)).unwrap();
+            writeln!(out, "run").unwrap();
+        }
+        writeln!(out, "end").unwrap();
+    }
+    out
+}
+
+pub fn gen(seed: u64, count: usize, thorough: bool) -> String {
+    gen_for(2, seed, count, thorough)
 }
